@@ -1061,7 +1061,17 @@ def c16(ix: Index) -> None:
         if r['k'] == 'rl_cancel_wait':
             ix.C['c16_runloop_cancels'] += 1
             if not r['done']:
-                ix.v('C16', 'cancelled-runloop-keeps-running', None, bus=r['bus'])
+                # F16: two sibling handlers of one event on a parallel_handlers bus were both inside an await when the cancellation
+                # arrived: it travels down one of the concurrent drains at a time while the others go on taking queue entries
+                mech = None
+                at = r.get('cancel_seq', r['seq'])
+                open_aw = [a for a in ix.awaits if isinstance(a['by'], int) and a['b']['seq'] < at and (a['e'] is None or a['e']['seq'] > at)]
+                for a1 in open_aw:
+                    for a2 in open_aw:
+                        i1, i2 = ix.inv.get(a1['by']), ix.inv.get(a2['by'])
+                        if i1 and i2 and a1['by'] != a2['by'] and i1['ev'] == i2['ev'] and i1['bus'] == i2['bus'] and ix.par[i1['bus']]:
+                            mech = 'F16'
+                ix.v('C16', 'cancelled-runloop-keeps-running', mech, bus=r['bus'])
 
 
 def _busy_len(ix: Index, r) -> float:
